@@ -16,11 +16,16 @@ open ColorBasic
 /-- a complete SGR sequence the printer can emit -/
 def IsCode (k : Str) : Prop := k = [27, 91, 48, 109] ∨ ∃ c ∈ genCodes, k = [27, 91] ++ c ++ [109]
 
-/-- `Col C T`: `C` is `T` with SGR sequences inserted; a raw `ESC` of `T` is never directly followed by `[` in `C` -/
+/-- `Col C T`: `C` is `T` with some stretches of text *painted* — put between an opening SGR sequence and the reset; a painted
+stretch is not empty and contains no line break and no `ESC`; a raw `ESC` of `T` is never directly followed by `[` in `C` -/
 inductive Col : Str → Str → Prop
   | nil : Col [] []
   | chr (c : Nat) {C T : Str} : Col C T → (c = 27 → C.head? ≠ some 91) → Col (c :: C) (c :: T)
-  | code (k : Str) {C T : Str} : IsCode k → Col C T → Col (k ++ C) T
+  | paint (code text : Str) {C T : Str} : code ∈ genCodes → text ≠ [] → (∀ x ∈ text, x ≠ 10 ∧ x ≠ 13 ∧ x ≠ 27) → Col C T →
+      Col (Grexv.paint true code text ++ C) (text ++ T)
+
+theorem paint_eq (code text : Str) : Grexv.paint true code text = ([27, 91] ++ code ++ [109]) ++ (text ++ [27, 91, 48, 109]) := by
+  simp [Grexv.paint, colorCode]
 
 theorem stripColor_nil (fuel : Nat) : stripColor fuel [] = [] := by cases fuel <;> simp [stripColor]
 
@@ -51,6 +56,15 @@ theorem strip_esc_other (fuel : Nat) (s : Str) (h : s.head? ≠ some 91) : strip
     simp only [List.cons.injEq] at hc
     exact absurd hc.1 ha
 
+/-- text without `ESC` passes through -/
+theorem strip_text : ∀ (t : Str), 27 ∉ t → ∀ (fuel : Nat) (s : Str), stripColor (fuel + t.length) (t ++ s) = t ++ stripColor fuel s
+  | [], _, fuel, s => rfl
+  | c :: r, h, fuel, s => by
+    have hc : c ≠ 27 := fun e => h (by simp [e])
+    have := strip_text r (fun e => h (List.mem_cons_of_mem _ e)) fuel s
+    simp only [List.length_cons, List.cons_append]
+    rw [show fuel + (r.length + 1) = (fuel + r.length) + 1 by omega, strip_other _ c _ hc, this]
+
 /-- **the stripping regex removes exactly the inserted sequences** -/
 theorem Col.strip {C T : Str} (h : Col C T) : ∀ fuel, C.length ≤ fuel → stripColor fuel C = T := by
   induction h with
@@ -65,14 +79,17 @@ theorem Col.strip {C T : Str} (h : Col C T) : ∀ fuel, C.length ≤ fuel → st
       · subst h27
         rw [strip_esc_other f C (hc rfl), ih f hlen]
       · rw [strip_other f c C h27, ih f hlen]
-  | @code k C T hk _ ih =>
+  | @paint code text C T hc hne htx _ ih =>
     intro fuel hf
-    have := isCode_len k hk
-    cases fuel with
-    | zero => simp only [List.length_append] at hf; omega
-    | succ f =>
-      rw [strip_code k hk f C]
-      exact ih f (by simp only [List.length_append] at hf; omega)
+    rw [paint_eq] at hf ⊢
+    have hopen : IsCode ([27, 91] ++ code ++ [109]) := Or.inr ⟨code, hc, rfl⟩
+    have hlen := isCode_len _ hopen
+    simp only [List.length_append] at hf hlen
+    have hfe : fuel = ((fuel - 2 - text.length) + 1 + text.length) + 1 := by
+      simp only [List.length_cons, List.length_nil] at hf hlen ⊢; omega
+    rw [hfe, List.append_assoc, strip_code _ hopen, List.append_assoc,
+      strip_text text (fun h => (htx 27 h).2.2 rfl), strip_code [27, 91, 48, 109] (Or.inl rfl)]
+    rw [ih _ (by simp only [List.length_cons, List.length_nil] at hf hlen ⊢; omega)]
 
 /-! ### building `Col` -/
 
@@ -86,9 +103,9 @@ theorem Col.append {a a' b b' : Str} (ha : Col a a') (hb : Col b b') (hh : b.hea
     cases C with
     | nil => simpa using hh
     | cons x xs => simpa using hc h27
-  | @code k C T hk _ ih =>
-    rw [List.append_assoc]
-    exact Col.code k hk ih
+  | @paint code text C T hc hne htx _ ih =>
+    rw [List.append_assoc, List.append_assoc]
+    exact Col.paint code text hc hne htx ih
 
 /-- in `t` every `[` directly follows a backslash (`prev` is the character before `t`) -/
 def S91 (prev : Nat) : Str → Prop
@@ -144,16 +161,10 @@ theorem Col.of_S91 : ∀ (t : Str) (p : Nat), S91 p t → Col t t
 theorem Col.of_safe {t : Str} (h : Safe91 t) : Col t t := Col.of_S91 t 0 h
 
 /-- a component: with colour it is the text between an opening code and the reset, without colour it is the text -/
-theorem Col.paint (code text : Str) (hc : code ∈ genCodes) (ht : Safe91 text) (h27 : 27 ∉ text) :
+theorem Col.paint' (code text : Str) (hc : code ∈ genCodes) (hne : text ≠ []) (htx : ∀ x ∈ text, x ≠ 10 ∧ x ≠ 13 ∧ x ≠ 27) :
     Col (Grexv.paint true code text) text := by
-  have hend : Col (text ++ [27, 91, 48, 109]) text := by
-    have : Col (text ++ ([27, 91, 48, 109] ++ [])) (text ++ []) :=
-      Col.append (Col.of_safe ht) (Col.code _ (Or.inl rfl) Col.nil) (by simp)
-    simpa using this
-  have : Grexv.paint true code text = ([27, 91] ++ code ++ [109]) ++ (text ++ [27, 91, 48, 109]) := by
-    simp [Grexv.paint, colorCode]
-  rw [this]
-  exact Col.code _ (Or.inr ⟨code, hc, rfl⟩) hend
+  have := Col.paint code text hc hne htx Col.nil
+  simpa using this
 
 theorem paint_head (code text : Str) : (Grexv.paint true code text).head? ≠ some 91 := by
   simp [Grexv.paint, colorCode]
@@ -182,12 +193,13 @@ theorem CP.of_safe {t : Str} (h : Safe91 t) : CP t t := by
     have := safe91_head h
     simpa using this
 
-theorem CP.paint (color : Bool) (code text : Str) (hc : code ∈ genCodes) (ht : Safe91 text) (h27 : 27 ∉ text) :
+theorem CP.paint (color : Bool) (code text : Str) (hc : code ∈ genCodes) (ht : Safe91 text) (hne : text ≠ [])
+    (htx : ∀ x ∈ text, x ≠ 10 ∧ x ≠ 13 ∧ x ≠ 27) :
     CP (Grexv.paint color code text) (Grexv.paint false code text) := by
   cases color with
   | false => exact CP.of_safe ht
   | true =>
-    refine ⟨Col.paint code text hc ht h27, ?_⟩
+    refine ⟨Col.paint' code text hc hne htx, ?_⟩
     intro rest _
     simp [Grexv.paint, colorCode]
 
@@ -208,31 +220,24 @@ theorem Col.prepend_no27 : ∀ (r : Str), 27 ∉ r → ∀ {C T : Str}, Col C T 
   | c :: r, h27, C, T, h =>
     Col.chr c (Col.prepend_no27 r (fun hc => h27 (List.mem_cons_of_mem _ hc)) h) (fun hc => absurd (by simp [hc]) h27)
 
-theorem isCode_has27 (k : Str) (h : IsCode k) : ∃ t, k = 27 :: t := by
-  rcases h with rfl | ⟨c, _, rfl⟩
-  · exact ⟨_, rfl⟩
-  · exact ⟨_, rfl⟩
-
 theorem Col.eq_of_no27 {C T : Str} (h : Col C T) (h27 : 27 ∉ C) : C = T := by
   induction h with
   | nil => rfl
   | @chr c C T _ _ ih => rw [ih (fun hc => h27 (List.mem_cons_of_mem _ hc))]
-  | @code k C T hk _ _ =>
-    obtain ⟨t, rfl⟩ := isCode_has27 k hk
-    exact absurd (by simp) h27
+  | @paint code text C T _ _ _ _ _ =>
+    exact absurd (by simp [Grexv.paint, colorCode]) h27
 
-/-- a painted component -/
-theorem Col.paint' (code text : Str) (hc : code ∈ genCodes) (h27 : 27 ∉ text) : Col (Grexv.paint true code text) text := by
-  have hend : Col (text ++ [27, 91, 48, 109]) text := by
-    have := Col.prepend_no27 text h27 (Col.code [27, 91, 48, 109] (Or.inl rfl) Col.nil)
-    simpa using this
-  have : Grexv.paint true code text = ([27, 91] ++ code ++ [109]) ++ (text ++ [27, 91, 48, 109]) := by
-    simp [Grexv.paint, colorCode]
-  rw [this]
-  exact Col.code _ (Or.inr ⟨code, hc, rfl⟩) hend
+/-- a painted component: the text is a fixed string, checked by evaluation -/
+def okText (t : Str) : Bool := !t.isEmpty && t.all fun x => x != 10 && x != 13 && x != 27
 
-theorem CP.painted (code text : Str) (hc : code ∈ genCodes) (h27 : 27 ∉ text) : CP (Grexv.paint true code text) text :=
-  ⟨Col.paint' code text hc h27, fun rest _ => by simp [Grexv.paint, colorCode]⟩
+theorem okText_sound (t : Str) (h : okText t = true) : t ≠ [] ∧ ∀ x ∈ t, x ≠ 10 ∧ x ≠ 13 ∧ x ≠ 27 := by
+  simp only [okText, Bool.and_eq_true, Bool.not_eq_true', List.all_eq_true, bne_iff_ne, ne_eq] at h
+  refine ⟨fun e => by simp [e] at h, fun x hx => ?_⟩
+  have := h.2 x hx
+  exact ⟨this.1.1, this.1.2, this.2⟩
+
+theorem CP.painted (code text : Str) (hc : code ∈ genCodes) (hok : okText text = true) : CP (Grexv.paint true code text) text :=
+  ⟨Col.paint' code text hc (okText_sound text hok).1 (okText_sound text hok).2, fun rest _ => by simp [Grexv.paint, colorCode]⟩
 
 /-- plain text without `ESC` that is not empty and does not start with `[` -/
 theorem CP.plain (t : Str) (h27 : 27 ∉ t) (hh : ∀ rest : Str, rest.head? ≠ some 91 → (t ++ rest).head? ≠ some 91) : CP t t :=
@@ -304,18 +309,43 @@ theorem decDigits_no27 (fuel n : Nat) (acc : Str) (hacc : 27 ∉ acc) : 27 ∉ d
 
 theorem toDec_no27 (n : Nat) : 27 ∉ toDec n := decDigits_no27 _ _ _ (by simp)
 
+theorem okText_braces (t : Str) (h : ∀ x ∈ t, x = 44 ∨ (48 ≤ x ∧ x ≤ 57)) : okText ([123] ++ t ++ [125]) = true := by
+  simp only [okText, Bool.and_eq_true, Bool.not_eq_true', List.all_eq_true, bne_iff_ne, ne_eq]
+  refine ⟨by simp, ?_⟩
+  intro x hx
+  simp only [List.mem_append, List.mem_cons, List.mem_nil_iff, or_false] at hx
+  rcases hx with (hx | hx) | hx
+  · omega
+  · have := h x hx; omega
+  · omega
+
+theorem decDigits_digits (fuel n : Nat) (acc : Str) (hacc : ∀ x ∈ acc, 48 ≤ x ∧ x ≤ 57) : ∀ x ∈ decDigits fuel n acc, 48 ≤ x ∧ x ≤ 57 := by
+  induction fuel generalizing n acc with
+  | zero => simpa [decDigits] using hacc
+  | succ f ih =>
+    unfold decDigits
+    split
+    · intro x hx
+      simp only [List.mem_cons] at hx
+      rcases hx with hx | hx
+      · omega
+      · exact hacc x hx
+    · apply ih
+      intro x hx
+      simp only [List.mem_cons] at hx
+      rcases hx with hx | hx
+      · have := Nat.mod_lt n (show 0 < 10 by omega); omega
+      · exact hacc x hx
+
+theorem toDec_digits (n : Nat) : ∀ x ∈ toDec n, 48 ≤ x ∧ x ≤ 57 := decDigits_digits _ _ _ (by simp)
+
 theorem cp_repetition (verb : Bool) (n : Nat) : CP (repetition true verb n) (repetition false verb n) := by
   unfold repetition
   apply CP.append _ (CP.ite_nl verb)
   apply CP.painted _ _ mem_codes.2.2.2.2.2.1
   split
   · decide
-  · intro hc
-    simp only [List.mem_append, List.mem_cons, List.mem_nil_iff, or_false] at hc
-    rcases hc with (hc | hc) | hc
-    · omega
-    · exact toDec_no27 n hc
-    · omega
+  · exact okText_braces _ (fun x hx => Or.inr (toDec_digits n x hx))
 
 theorem cp_repetitionRange (verb : Bool) (m n : Nat) : CP (repetitionRange true verb m n) (repetitionRange false verb m n) := by
   unfold repetitionRange
@@ -323,16 +353,18 @@ theorem cp_repetitionRange (verb : Bool) (m n : Nat) : CP (repetitionRange true 
   apply CP.painted _ _ mem_codes.2.2.2.2.2.1
   split
   · decide
-  · intro hc
-    simp only [List.mem_append, List.mem_cons, List.mem_nil_iff, or_false] at hc
-    rcases hc with (((hc | hc) | hc) | hc) | hc
-    · omega
-    · exact toDec_no27 m hc
-    · omega
-    · exact toDec_no27 n hc
-    · omega
+  · have : ([123] ++ toDec m ++ [44] ++ toDec n ++ [125] : Str) = [123] ++ (toDec m ++ [44] ++ toDec n) ++ [125] := by simp
+    rw [this]
+    apply okText_braces
+    intro x hx
+    simp only [List.mem_append, List.mem_cons, List.mem_nil_iff, or_false] at hx
+    rcases hx with (hx | hx) | hx
+    · exact Or.inr (toDec_digits m x hx)
+    · exact Or.inl hx
+    · exact Or.inr (toDec_digits n x hx)
 
 theorem charClasses_no27 : ∀ v ∈ Gen.charClasses, 27 ∉ v := by decide
+theorem charClasses_ok : ∀ v ∈ Gen.charClasses, okText v = true := by decide
 
 /-- the value of a grapheme, painted when it is a shorthand class -/
 theorem cp_charClass (vT vF : Str) (h : CP vT vF) :
@@ -344,7 +376,7 @@ theorem cp_charClass (vT vF : Str) (h : CP vT vF) :
     have := h.col.eq_of_no27 h27
     subst this
     simp only [hc, Bool.and_self, Bool.false_and]
-    exact CP.painted _ _ mem_codes.2.2.2.2.2.2.1 h27
+    exact CP.painted _ _ mem_codes.2.2.2.2.2.2.1 (charClasses_ok vT hmem)
   · have hc' : Gen.charClasses.contains vT = false := by simpa using hc
     simp only [hc', Bool.and_false, Bool.false_and, paint, Bool.false_eq_true, ite_false]
     exact h
